@@ -162,6 +162,7 @@ func skRun(in *skInput, sink *CaseSink, prop string) {
 	var hist []skHist
 	var iterSeq []int // keys returned by the iterator thread in order (C15 oracle)
 	var iterBad string
+	iterStartStep, iterStartKey, iterExhausted := -1, -1<<62, false
 	for t := 0; t < nt; t++ {
 		t := t
 		sch.Go(t, func() {
@@ -211,9 +212,11 @@ func skRun(in *skInput, sink *CaseSink, prop string) {
 					hist = append(hist, skHist{t, i, call, stepNo, op, found})
 				case "first", "seek", "next":
 					if op.Op == "first" {
+						iterStartStep, iterStartKey, iterExhausted = call, -1<<62, false
 						it.SeekFirst()
 						positioned = true
 					} else if op.Op == "seek" {
+						iterStartStep, iterStartKey, iterExhausted = call, op.K, false
 						it.Seek(skiplist.NewIntKeyItem(op.K))
 						positioned = true
 					} else {
@@ -235,6 +238,9 @@ func skRun(in *skInput, sink *CaseSink, prop string) {
 						iterSeq = append(iterSeq, k)
 					} else {
 						results[t] = append(results[t], "RIter false 0%Z")
+						if positioned {
+							iterExhausted = true
+						}
 					}
 				}
 			}
@@ -345,6 +351,39 @@ func skRun(in *skInput, sink *CaseSink, prop string) {
 	}
 	if bad == "" && iterBad != "" {
 		bad, sig = iterBad, "c15-backwards"
+	}
+	if bad == "" && finished && iterStartStep >= 0 {
+		// soundness: every key the iterator returned was inserted by somebody at some time
+		inserted := map[int]bool{}
+		touchedByDelete := map[int]bool{}
+		insertedBefore := map[int]bool{}
+		for _, o := range hist {
+			if o.op.Op == "ins" && o.ok {
+				inserted[o.op.K] = true
+				if o.ret <= iterStartStep {
+					insertedBefore[o.op.K] = true
+				}
+			}
+			if o.op.Op == "del" || o.op.Op == "deln" {
+				touchedByDelete[o.op.K] = true
+			}
+		}
+		got := map[int]bool{}
+		for _, k := range iterSeq {
+			got[k] = true
+			if !inserted[k] {
+				bad, sig = fmt.Sprintf("the iterator returned key %d which was never inserted", k), "c15-unsound"
+			}
+		}
+		// completeness: a key present before the scan started, never the target of a delete, at or
+		// behind the start position, must have been returned by a scan that ran to the end
+		if bad == "" && iterExhausted {
+			for k := range insertedBefore {
+				if !touchedByDelete[k] && k >= iterStartKey && !got[k] {
+					bad, sig = fmt.Sprintf("key %d was present for the whole scan (inserted before it started, never deleted) but the iterator did not return it; returned %v", k, iterSeq), "c15-incomplete"
+				}
+			}
+		}
 	}
 	preempt := 0
 	for i := 1; i < len(sch.Trace); i++ {
